@@ -9,10 +9,12 @@
    from the GENERATED translations of can_forward_htlc_should_intercept, can_forward_htlc_to_outgoing_channel,
    forward_needs_intercept_to_{known,unknown}_chan, htlc_satisfies_config, create_htlc_intercepted_event and
    forward_intercepted_htlc (Generated/Forward.lean, regenerated on every run).
-   Scope: one HTLC; on-chain claiming itself is C07; trampoline and blinded forwards are not modelled. -/
+   Scope: the one-HTLC machine, lifted to N HTLCs on one pair of links (Model/ForwardMulti.lean); on-chain claiming itself is C07; trampoline and blinded forwards are not modelled. -/
 import LdkModel.Proofs.Forward
 import LdkModel.Proofs.ForwardHop
 import LdkModel.Proofs.ForwardClose
+import LdkModel.Proofs.ForwardMulti
+import LdkModel.Proofs.ForwardBlinded
 namespace Ldk.C02
 open Ldk Ldk.Forward Ldk.FwdGen
 
@@ -769,5 +771,162 @@ example :
 example :
     let s := FwdClose.run FwdClose.init [.announce false, .recvRaa, .recvCs, .recvRemove true, .recvCs, .commit true, .forceClose]
     s.dropped = false ∧ s.phase = .pending (.awaitingRemovedRemoteRevoke true) ∧ s.held = some true := by decide
+
+/-! ## N forwarded HTLCs on one pair of links: channel-level events, interference, lifting
+
+    `FwdMulti.mstep` (Model/ForwardMulti.lean): one `commitment_signed` / `revoke_and_ack` / monitor-update completion / crash /
+    restart acts on every HTLC; the upstream `PaymentPreimage` update of HTLC k is an "other in-flight update" for every j ≠ k,
+    the `RAAMonitorUpdateBlockingAction` of HTLC j parks the downstream revocation update for every k ≠ j (computed from the
+    global state in the second and third pass of `mstep`); the downstream monitor's on-chain preimage learning goes through the
+    GENERATED de-duplication test of `is_resolving_htlc_output`. -/
+
+open Ldk.FwdMulti Ldk.ChainClaimGen in
+/-- **multi_lifting.** The projection of ANY run of the N-machine (all interleavings of channel-level events, crashes and restarts
+    included) onto one HTLC is a run of the one-HTLC machine `Forward.step` — the other HTLCs appear in it only as
+    `handUpOther` / `completeUpOther` / `addDownOther` / `removeDownOther`. -/
+theorem multi_lifting (n : Nat) (ops : List FwdMulti.MOp) (i : Nat) :
+    ∃ ops' : List Op, (FwdMulti.mrun (FwdMulti.minit n) ops).hs i = run init ops' :=
+  FwdMulti.lifting_from (FwdMulti.minit n) ops i
+
+/-- one step spelled out: the per-HTLC ops are the event's own effect followed by the interference of the other HTLCs -/
+theorem multi_step_projection (m : FwdMulti.MSt) (op : FwdMulti.MOp) (i : Nat) :
+    (FwdMulti.mstep m op).hs i = run (m.hs i) (FwdMulti.opsFor m op i) := FwdMulti.mstep_hs m op i
+
+/-- non-vacuity: two HTLCs, asynchronous persistence; ONE revoke_and_ack removes both, its monitor update is parked while
+    either blocker is registered and flies when the LAST upstream preimage update completes -/
+example :
+    let m := FwdMulti.mrun (FwdMulti.minit 2) [.setSync false, .recvFulfilDown 0, .recvFulfilDown 1, .recvCsDown, .completeDownCs,
+      .recvRaaDown, .completeUp [0]]
+    (m.hs 0).downRaaUpdate = .blocked ∧ (m.hs 1).downRaaUpdate = .blocked ∧ (m.hs 0).upPreimageDurable = true ∧
+    (m.hs 1).upPreimageDurable = false ∧ FwdMulti.coherent m = true := by decide
+example :
+    let m := FwdMulti.mrun (FwdMulti.minit 2) [.setSync false, .recvFulfilDown 0, .recvFulfilDown 1, .recvCsDown, .completeDownCs,
+      .recvRaaDown, .completeUp [0], .completeUp [1]]
+    (m.hs 0).downRaaUpdate = .handedToWatch ∧ (m.hs 1).downRaaUpdate = .handedToWatch ∧ (m.hs 0).blocker = false ∧
+    FwdMulti.coherent m = true := by decide
+
+/-- **multi_preimage_durable_before_removal_irrevocable.** In every reachable state of the N-machine, for EVERY HTLC: the
+    downstream revocation update is with `chain::Watch` (or durable) only if that HTLC's upstream preimage update is durable;
+    and no HTLC is ever failed upstream while the next hop has, or can still get, its downstream amount. -/
+theorem multi_preimage_durable_before_removal_irrevocable (n : Nat) (ops : List FwdMulti.MOp) (i : Nat) :
+    let s := (FwdMulti.mrun (FwdMulti.minit n) ops).hs i
+    (s.down = .removedByFulfil → (s.downRaaUpdate = .handedToWatch ∨ s.downRaaUpdate = .durable) → s.upPreimageDurable = true) ∧
+    ¬ (s.up = .failSent ∧ downClaimable s = true) := by
+  intro s
+  obtain ⟨o', h⟩ := multi_lifting n ops i
+  have I := FwdMulti.inv_multi n ops i
+  refine ⟨I.raa_gate, ?_⟩
+  show ¬ (((FwdMulti.mrun (FwdMulti.minit n) ops).hs i).up = .failSent ∧ downClaimable ((FwdMulti.mrun (FwdMulti.minit n) ops).hs i) = true)
+  rw [h]; exact never_fulfilled_down_failed_up o'
+
+/-- **multi_forward_no_loss.** The money theorem at full strength: in EVERY reachable state of the N-machine (all interleavings,
+    crashes / restarts included) and for EVERY set `ids` of forwarded HTLCs whose downstream offer does not exceed the inbound
+    amount (`admit_no_loss` / `hop_offer_bounded`), the amounts irrevocably paid downstream add up to no more than the amounts
+    claimed or durably claimable upstream — i.e. the fees earned on any set of HTLCs are ≥ 0 — and no HTLC that was paid out
+    downstream is failed upstream. -/
+theorem multi_forward_no_loss (n : Nat) (ops : List FwdMulti.MOp) (ids : List Nat) (inAmt outAmt : Nat → Nat)
+    (hadm : ∀ i ∈ ids, outAmt i ≤ inAmt i) :
+    let m := FwdMulti.mrun (FwdMulti.minit n) ops
+    FwdMulti.sumOver ids (fun i => if FwdMulti.paidDown (m.hs i) then outAmt i else 0) ≤
+      FwdMulti.sumOver ids (fun i => if FwdMulti.securedUp (m.hs i) then inAmt i else 0) ∧
+    ∀ i, FwdMulti.paidDown (m.hs i) = true → (m.hs i).up ≠ .failSent := by
+  intro m
+  refine ⟨FwdMulti.sum_pointwise ids _ _ ?_, fun i hp => FwdMulti.paid_not_failed _ (FwdMulti.inv_multi n ops i) hp⟩
+  intro i hi
+  have I := FwdMulti.inv_multi n ops i
+  cases hp : FwdMulti.paidDown (m.hs i)
+  · simp
+  · have hs := FwdMulti.paid_secured _ I hp
+    show outAmt i ≤ (if FwdMulti.securedUp (m.hs i) = true then inAmt i else 0)
+    rw [if_pos hs]; exact hadm i hi
+
+example :
+    let m := FwdMulti.mrun (FwdMulti.minit 2) [.recvFulfilDown 0, .recvFulfilDown 1, .recvCsDown, .recvRaaDown, .sendFulfilUp 0]
+    FwdMulti.paidDown (m.hs 0) = true ∧ FwdMulti.paidDown (m.hs 1) = true ∧ (m.hs 0).up = .fulfilSent ∧ (m.hs 1).up = .pending ∧
+    FwdMulti.securedUp (m.hs 1) = true := by decide
+
+/-- **onchain_preimage_learned_per_source.** The downstream monitor's on-chain preimage learning, with the de-duplication test
+    of BOTH arms of `is_resolving_htlc_output` as TRANSLATED from the source: for every reachable state, every batch of preimage
+    spends one `transactions_confirmed` call sees (any number of HTLCs sharing a payment hash, either arm, any events still
+    un-drained) and every claim `c` in it, afterwards an `HTLCEvent` carrying a preimage is queued for `c`'s SOURCE, and when the
+    manager drains the events it handles an on-chain preimage for that very HTLC. -/
+theorem onchain_preimage_learned_per_source (n : Nat) (ops : List FwdMulti.MOp) (claims : List FwdMulti.Claim) (c : FwdMulti.Claim)
+    (hc : c ∈ claims) :
+    let m' := FwdMulti.mstep (FwdMulti.mrun (FwdMulti.minit n) ops) (.chainSee claims)
+    (∃ ev ∈ m'.events, ev.source = c.source ∧ ev.preimage.isSome = true) ∧
+    Op.chainPreimage ∈ FwdMulti.priOps m' .drainEvents c.source := by
+  intro m'
+  have hev : m'.events = FwdMulti.resolveBlock (FwdMulti.mrun (FwdMulti.minit n) ops).events claims := rfl
+  obtain ⟨ev, hm, hs⟩ := FwdMulti.resolveBlock_has (FwdMulti.mrun (FwdMulti.minit n) ops).events claims c hc
+  have hp := FwdMulti.resolveBlock_pre _ claims (FwdMulti.events_pre n ops) ev hm
+  refine ⟨⟨ev, hev ▸ hm, hs, hp⟩, ?_⟩
+  simp only [FwdMulti.priOps, List.mem_map, List.mem_filter]
+  exact ⟨ev, ⟨hev ▸ hm, by simp [hs, hp]⟩, by first | rfl | trivial⟩
+
+/-- ... and handling it makes the HTLC's preimage known and hands the upstream `PaymentPreimage` update to `chain::Watch`
+    (from where `learned_preimage_claims` takes over) -/
+theorem onchain_preimage_event_claims_upstream (s : St) (ha : s.alive = true)
+    (hd : s.down = .offered ∨ s.down = .fulfilSeen ∨ s.down = .failSeen) :
+    (step s .chainPreimage).down = .onchainPreimage ∧ (step s .chainPreimage).upPreimageHandedToWatch = true ∧
+    (step s .chainPreimage).alive = true := FwdMulti.chainPreimage_learns s ha hd
+
+/-- **onchain_preimage_all_sources_claimed.** State-level form, over all runs of the N-machine: the monitor sees ANY batch of preimage
+    spends in one block (HTLCs sharing a payment hash included), the manager drains the events — then EVERY claimed HTLC that was
+    still open downstream at a live node has its preimage known and its upstream `PaymentPreimage` update handed to `chain::Watch`
+    (`learned_preimage_claims` / `multi_lifting` then give the upstream `update_fulfill_htlc`). -/
+theorem onchain_preimage_all_sources_claimed (n : Nat) (ops : List FwdMulti.MOp) (claims : List FwdMulti.Claim) (c : FwdMulti.Claim)
+    (hc : c ∈ claims)
+    (ha : ((FwdMulti.mrun (FwdMulti.minit n) ops).hs c.source).alive = true)
+    (hd : ((FwdMulti.mrun (FwdMulti.minit n) ops).hs c.source).down = .offered ∨
+          ((FwdMulti.mrun (FwdMulti.minit n) ops).hs c.source).down = .fulfilSeen ∨
+          ((FwdMulti.mrun (FwdMulti.minit n) ops).hs c.source).down = .failSeen) :
+    let m2 := FwdMulti.mstep (FwdMulti.mstep (FwdMulti.mrun (FwdMulti.minit n) ops) (.chainSee claims)) .drainEvents
+    (m2.hs c.source).down = .onchainPreimage ∧ (m2.hs c.source).upPreimageHandedToWatch = true := by
+  exact FwdMulti.drain_claims _ claims c hc (FwdMulti.events_pre n ops) ha hd
+
+/-- non-vacuity (the scenario of seeded C02-r4): two forwarded HTLCs with the SAME payment hash 7 on the downstream channel, the
+    next hop claims both with HTLC-Success in one block: two events, both inbound HTLCs are claimed upstream -/
+example :
+    let m := FwdMulti.mrun (FwdMulti.minit 2) [.chainSee [⟨true, 0, 7, 900000, 5⟩, ⟨true, 1, 7, 800000, 5⟩], .drainEvents,
+      .sendFulfilUp 0, .sendFulfilUp 1]
+    (m.hs 0).up = .fulfilSent ∧ (m.hs 1).up = .fulfilSent := by decide
+example : (FwdMulti.resolveBlock [] [⟨true, 0, 7, 900000, 5⟩, ⟨true, 1, 7, 800000, 5⟩, ⟨true, 0, 7, 900000, 5⟩]).length = 2 := by decide
+
+/-! ## blinded forwards: the amounts come from the node's own `payment_relay`, not from the onion -/
+
+open Ldk.BlindedGen in
+/-- **blinded_forward_keeps_fee.** Whatever `check_blinded_forward` (GENERATED: `amt_to_forward_msat` translated, the rest pinned and
+    composed) lets through, for all inbound amounts / expiries, relay parameters (any `fee_proportional_millionths`, also above
+    100 %) and constraints: the amount offered downstream is positive and, together with the fee the node's `payment_relay`
+    promises for forwarding exactly that amount (`amt·prop/10⁶ + base`, the division rounding DOWN), does not exceed the inbound
+    amount — the inversion never rounds against the node —; the outgoing expiry is the inbound one less the relay's
+    `cltv_expiry_delta`; the inbound HTLC met `htlc_minimum_msat` and `max_cltv_expiry`. -/
+theorem blinded_forward_keeps_fee (inAmt inCltv : Nat) (r : PaymentRelay) (pc : PaymentConstraints) (uf : Bool) (a c : Nat)
+    (h : checkBlindedForward inAmt inCltv r pc uf = some (a, c)) :
+    0 < a ∧ a + relayFee r a ≤ inAmt ∧ c + r.cltv_expiry_delta = inCltv ∧
+    pc.htlc_minimum_msat ≤ inAmt ∧ inCltv ≤ pc.max_cltv_expiry ∧ uf = false := by
+  unfold checkBlindedForward at h
+  cases ha : amtToForwardMsat inAmt r with
+  | none => simp [ha] at h
+  | some a' =>
+    have hs := amt_to_forward_sound inAmt r a' ha
+    by_cases hd : r.cltv_expiry_delta ≤ inCltv
+    · simp only [ha, chkSub, hd, if_true] at h
+      by_cases hv : blindedConstraintsViolated inAmt inCltv pc = true
+      · simp [hv] at h
+      · cases uf
+        · simp [hv] at h
+          obtain ⟨rfl, rfl⟩ := h
+          simp [blindedConstraintsViolated] at hv
+          exact ⟨hs.1, hs.2, by omega, by omega, by omega, rfl⟩
+        · simp [hv] at h
+    · simp [ha, chkSub, hd] at h
+
+example : Ldk.BlindedGen.checkBlindedForward 101000 500 ⟨72, 0, 1000⟩ ⟨600, 1⟩ false = some (100000, 428) := by decide
+/-- rounding boundaries: 1 % fee — 101 msat in forwards 100 (fee 1), 100 msat in forwards 99 (fee 0 by the node's own rule, 1 msat kept) -/
+example : Ldk.BlindedGen.amtToForwardMsat 101 ⟨0, 10000, 0⟩ = some 100 := by decide
+example : Ldk.BlindedGen.amtToForwardMsat 100 ⟨0, 10000, 0⟩ = some 99 := by decide
+example : Ldk.BlindedGen.amtToForwardMsat 2 ⟨0, 4294967295, 1⟩ = none := by decide
+example : Ldk.BlindedGen.amtToForwardMsat 1000005 ⟨0, 2000000, 0⟩ = some 333335 := by decide
 
 end Ldk.C02
